@@ -148,12 +148,10 @@ Definition normalize_query (text : str) : result str :=
 Definition normalize_fragment (text : str) : result str :=
   do p <- percent_encode fragment_encode_set text; Ok (upper_pe p).
 
-(* normalize_username / normalize_password always use the default encoding utf-8 *)
+(* normalize_username / normalize_password, called with encoding=<enc> by parse and by
+   the url property *)
 Definition normalize_userpart (set : str) (text : str) : result str :=
-  match utf8 text with
-  | None => Err UnicodeErr
-  | Some bs => Ok (upper_pe (pe_bytes set bs))
-  end.
+  do p <- percent_encode set text; Ok (upper_pe p).
 
 Definition percent_decode (text : str) : str :=
   if negb (memb 37 text) then text else unq_o text.
@@ -287,63 +285,79 @@ Definition min_found (l : list (option nat)) (dflt : nat) : nat :=
   | None => dflt           (* min() of an empty sequence: ValueError, caught *)
   end.
 
+(* scheme detection of URLInfo.parse (url.py:133-151), default_scheme='http':
+   (scheme, remaining); None = ValueError('URL missing scheme') *)
+Definition split_scheme (url : str) : option (str * str) :=
+  let '(scheme0, sep, remaining0) := partition 58 url in
+  if is_nil scheme0 then None
+  else
+    let scheme1 := py_lower scheme0 in
+    let '(remaining1, scheme2) := if negb sep then (url, s_http) else (remaining0, scheme1) in
+    if memb 46 scheme2 || str_eqb scheme2 s_localhost
+    then Some (s_http, scheme2 ++ [58] ++ remaining1)
+    else Some (scheme2, remaining1).
+
+(* the component split (url.py:166-193): authority, resource, path, query, fragment *)
+Definition split_remaining (remaining : str) : str * str * str * str * str :=
+  let path_index := find_idx 47 remaining in
+  let query_index := find_idx 63 remaining in
+  let fragment_index := find_idx 35 remaining in
+  let len := length remaining in
+  let authority_index := min_found [path_index; query_index; fragment_index] len in
+  let authority := firstn authority_index remaining in
+  let resource := skipn authority_index remaining in
+  let path_index2 := min_found [query_index; fragment_index] len in
+  let path0 := slice (S authority_index) path_index2 remaining in
+  let path := if is_nil path0 then s_slash else path0 in
+  let query_index2 := match fragment_index with Some i => i | None => len end in
+  let query := slice (S path_index2) query_index2 remaining in
+  let fragment := skipn (S query_index2) remaining in
+  (authority, resource, path, query, fragment).
+
+(* the network-scheme part of URLInfo.parse (url.py:163-225) *)
+Definition parse_network (url scheme : str) (dport : N) (remaining2 : str) : result urlinfo :=
+  let remaining := if startswith remaining2 [47; 47] then skipn 2 remaining2 else remaining2 in
+  let '(authority, resource, path, query, fragment) := split_remaining remaining in
+  let '(userinfo, host) := parse_authority authority in
+  do hp <- parse_host host;
+  let '(hostname, port) := hp in
+  let '(username, password) := parse_userinfo userinfo in
+  if is_nil hostname then Err ValueErr
+  else
+    do npath <- normalize_path path;
+    do nquery <- normalize_query query;
+    do nfragment <- normalize_fragment fragment;
+    let uname := percent_decode username in
+    let pword := percent_decode password in
+    (* the user-info must be encodable by the url property: checked here *)
+    do _ <- normalize_userpart username_encode_set uname;
+    do _ <- normalize_userpart password_encode_set pword;
+    Ok {| u_network := true; u_raw := url; u_scheme := scheme; u_authority := authority;
+          u_path := npath; u_query := nquery; u_fragment := nfragment;
+          u_userinfo := userinfo; u_username := uname; u_password := pword;
+          u_host := host; u_hostname := hostname;
+          u_port := match port with
+                    | Some p => if p =? 0 then dport else p     (* port or DEFAULT[scheme] *)
+                    | None => dport
+                    end;
+          u_resource := resource |}.
+
 (* URLInfo.parse(url, default_scheme='http', encoding=<enc>) *)
 Definition parse (url0 : str) : result urlinfo :=
   let url := strip url0 in
   if existsb (fun c => c <? 32) url then Err ValueErr
   else
-    let '(scheme0, sep, remaining0) := partition 58 url in
-    if is_nil scheme0 then Err ValueErr
-    else
-      let scheme1 := py_lower scheme0 in
-      let '(remaining1, scheme2) := if negb sep then (url, s_http) else (remaining0, scheme1) in
-      let '(remaining2, scheme) :=
-        if memb 46 scheme2 || str_eqb scheme2 s_localhost
-        then (scheme2 ++ [58] ++ remaining1, s_http) else (remaining1, scheme2) in
-      match default_port scheme with
-      | None =>
-          Ok {| u_network := false; u_raw := url; u_scheme := scheme; u_authority := []; u_path := remaining2;
-                u_query := []; u_fragment := []; u_userinfo := []; u_username := []; u_password := [];
-                u_host := []; u_hostname := []; u_port := 0; u_resource := [] |}
-      | Some dport =>
-          let remaining := if startswith remaining2 [47; 47] then skipn 2 remaining2 else remaining2 in
-          let path_index := find_idx 47 remaining in
-          let query_index := find_idx 63 remaining in
-          let fragment_index := find_idx 35 remaining in
-          let len := length remaining in
-          let authority_index := min_found [path_index; query_index; fragment_index] len in
-          let authority := firstn authority_index remaining in
-          let resource := skipn authority_index remaining in
-          let path_index2 := min_found [query_index; fragment_index] len in
-          let path0 := slice (S authority_index) path_index2 remaining in
-          let path := if is_nil path0 then s_slash else path0 in
-          let query_index2 := match fragment_index with Some i => i | None => len end in
-          let query := slice (S path_index2) query_index2 remaining in
-          let fragment := skipn (S query_index2) remaining in
-          let '(userinfo, host) := parse_authority authority in
-          do hp <- parse_host host;
-          let '(hostname, port) := hp in
-          let '(username, password) := parse_userinfo userinfo in
-          if is_nil hostname then Err ValueErr
-          else
-            do npath <- normalize_path path;
-            do nquery <- normalize_query query;
-            do nfragment <- normalize_fragment fragment;
-            let uname := percent_decode username in
-            let pword := percent_decode password in
-            (* the user-info must be encodable by the url property: checked here *)
-            do _ <- normalize_userpart username_encode_set uname;
-            do _ <- normalize_userpart password_encode_set pword;
-            Ok {| u_network := true; u_raw := url; u_scheme := scheme; u_authority := authority;
-                  u_path := npath; u_query := nquery; u_fragment := nfragment;
-                  u_userinfo := userinfo; u_username := uname; u_password := pword;
-                  u_host := host; u_hostname := hostname;
-                  u_port := match port with
-                            | Some p => if p =? 0 then dport else p     (* port or DEFAULT[scheme] *)
-                            | None => dport
-                            end;
-                  u_resource := resource |}
-      end.
+    match split_scheme url with
+    | None => Err ValueErr
+    | Some (scheme, remaining2) =>
+        match default_port scheme with
+        | None =>
+            Ok {| u_network := false; u_raw := url; u_scheme := scheme; u_authority := []; u_path := remaining2;
+                  u_query := []; u_fragment := []; u_userinfo := []; u_username := []; u_password := [];
+                  u_host := []; u_hostname := []; u_port := 0; u_resource := [] |}
+        | Some dport => parse_network url scheme dport remaining2
+        end
+    end.
 
 (* ---------- accessors ---------- *)
 Definition is_ipv6 (i : urlinfo) : bool := startswith (u_host i) [91].
@@ -425,3 +439,23 @@ Definition parse_url_or_log (url : str) : result (option urlinfo) :=
   end.
 
 End WithOracles.
+
+(* ---------- wpull.url.urljoin / wpull.scraper.util.urljoin_safe ---------- *)
+Section Join.
+(* urllib.parse.urljoin(base_url, url, allow_fragments=...) *)
+Variable lib_urljoin : str -> str -> result str.
+
+Definition urljoin (base_url url : str) : result str :=
+  if startswith url [47; 47] && Nat.ltb 2 (length url) then
+    let '(scheme, _, _) := partition 58 base_url in
+    if negb (is_nil scheme) then lib_urljoin base_url (scheme ++ [58] ++ url)
+    else lib_urljoin base_url url
+  else lib_urljoin base_url url.
+
+(* try: urljoin except ValueError: log, return None *)
+Definition urljoin_safe (base_url url : str) : result (option str) :=
+  match urljoin base_url url with
+  | Ok s => Ok (Some s)
+  | Err k => if is_value_error k then Ok None else Err k
+  end.
+End Join.
